@@ -109,6 +109,13 @@ func DSLModel(t *rapid.T, o DSLOpts) *Model {
 	if o.Scale && rapid.IntRange(0, 7).Draw(t, "scale") == 0 {
 		m.Scaled = InflateDSL(t, m, o.JSONOnly)
 	}
+	if o.Rich && rapid.IntRange(0, 5).Draw(t, "specialNames") == 0 {
+		// two names that a derived key (hash, prefix, case, digits, ...) makes equal, see names.go
+		p := DrawNamePair(t)
+		if what := ApplyNamePair(t, m, p, nil); what != "" {
+			m.Named = p.Kind + ":" + what
+		}
+	}
 	return m
 }
 
